@@ -9,16 +9,23 @@
    (C03_action_faithful): no token is dropped, overwritten, duplicated or attached to another command;
    nothing else in the parser state changes.  On texts: every text that lexes — whatever its layout — to those
    tokens is accepted with that one-node tree (C03_parse_single_action).
-   For tests, test lists, blocks and if/elsif/else chains faithfulness is not proved: every accepted input
-   of the enumerations, structural cases, generated scripts, layouts and mutants is compared with the tree
-   of an independent recursive-descent parser of the RFC 5228 generic grammar (names, nesting, order,
-   every tag with its parameter, nothing else), and the model's tree with the parser's tree. *)
+   Whole scripts (sieve/CompleteTree.v): for every command sequence derivable in the grammar [wf_cmds]
+   (actions, require, controls with a test and a block, tests with arguments, not, anyof / allof, all nested to
+   any depth, elsif / else) the tree returned is EXACTLY the tree of the derivation: every command under
+   its parent in source order, every test in the slot of the command that takes it, every argument map as
+   the specification [legal] assigns it, no node dropped, duplicated or attached elsewhere
+   (C03_run_cmds, C03_parse_script).
+   Outside that grammar (hash comments between commands; keep / setflag / addflag / removeflag / hasflag whose
+   definitions are not [wf_def], see known findings) faithfulness is checked, not proved: every accepted
+   input of the enumerations, structural cases, generated scripts, layouts and mutants is compared with the
+   tree of an independent recursive-descent parser of the RFC 5228 generic grammar, and the model's tree
+   with the parser's tree. *)
 From Coq Require Import String.
 From Coq Require Import List NArith Bool Arith.
 From SV Require Import Bytes Lexer Tables ArgCheck ArgSpec Machine Printer GenTables.
 Import ListNotations.
 Local Open Scope nat_scope.
-From SV Require Import ArgCheckFacts PositionFacts TotalFacts RegisterFacts CompleteFacts.
+From SV Require Import ArgCheckFacts PositionFacts TotalFacts RegisterFacts CompleteFacts CompleteTree CompleteExamples.
 
 (* the argument tokens drive the machine exactly as the arguments drive the table interpreter; brackets, loaded extensions, comments and result are untouched *)
 Theorem C03_run_args :
@@ -120,6 +127,57 @@ Theorem C03_parse_single_action :
   legal d [] args = LComplete am em -> parse T text = Accept [Node d am em [] []].
 Proof. exact CompleteFacts.parse_single_action. Qed.
 Print Assumptions C03_parse_single_action.
+
+(* arguments of any command (test, control, action), anywhere in the stack *)
+Theorem C03_run_args_gen :
+  forall (T : tables) (args : list argument) (st : pstate) (f : frame) 
+    (rest : list frame) (fN : frame),
+  cur_is st f rest ->
+  Forall arg_ok args ->
+  args <> [] ->
+  feed f args (p_loaded st) = FOk fN ->
+  exists (stX : pstate) (ts : bool),
+    steps T st (flat_map arg_toks args) = ostep (check_completion stX ts) /\
+    p_stack stX = fN :: rest /\
+    p_cstate stX = CArgs /\
+    p_expected stX = None /\
+    same_env st stX /\
+    fi fN /\ f_def fN = f_def f /\ f_attach fN = f_attach f /\ f_children fN = f_children f.
+Proof. exact CompleteTree.run_args_gen. Qed.
+Print Assumptions C03_run_args_gen.
+
+(* a test tree is rebuilt node for node: arguments, the test of `not`, the tests of a test list in order *)
+Theorem C03_run_test :
+  forall (T : tables) (L : list bytes),
+  twf_tables T = true -> forall (t : gtest) (n : node), wf_test T L t n -> Pst T L t n.
+Proof. exact CompleteTree.run_test. Qed.
+Print Assumptions C03_run_test.
+
+(* a command sequence emits exactly its nodes, in order, into the result (top level) or the children of the block owner *)
+Theorem C03_run_cmds :
+  forall T : tables,
+  twf_tables T = true ->
+  forall (L : list bytes) (prev : option bytes) (cs : list gcmd) (ns : list node)
+    (L' : list bytes), wf_cmds T L prev cs ns L' -> Pcmds T L prev cs ns L'.
+Proof. exact CompleteTree.run_cmds. Qed.
+Print Assumptions C03_run_cmds.
+
+(* on texts: the tree of the derivation, nothing else *)
+Theorem C03_parse_script :
+  forall (T : tables) (text : bytes) (cs : list gcmd) (ns : list node) (L' : list bytes),
+  twf_tables T = true ->
+  snd (lex text) = None ->
+  map strip_pos (fst (lex text)) = flat_map toks_cmd cs ->
+  wf_cmds T [] None cs ns L' -> parse T text = Accept ns.
+Proof. exact CompleteTree.parse_script. Qed.
+Print Assumptions C03_parse_script.
+
+(* non-vacuity on the generated tables *)
+Theorem C03_script_example :
+  exists (L' : list bytes) (ns : list node),
+    wf_cmds gen_tables [] None ex_script ns L' /\ parse gen_tables ex_text = Accept ns.
+Proof. exact CompleteExamples.ex_wf. Qed.
+Print Assumptions C03_script_example.
 
 (* non-vacuity: vacation with tags, a number, a list and a string, from its text *)
 Example C03_vacation_example :
